@@ -75,7 +75,8 @@ def run_level_scenarios(tier):
 def run(tier, seed):
     # part 2 first (it writes evidence/C13.json through the shared report; we merge part 1 into it afterwards)
     code2 = run_property('C13', run_level_scenarios(tier), tier, seed)
-    ev2 = json.load(open(os.path.join(os.path.dirname(os.path.dirname(os.path.abspath(__file__))), 'evidence', 'C13.json')))
+    from lib import evidence as _ev
+    ev2 = json.load(open(os.path.join(_ev.OUT, 'evidence', 'C13.json')))
     rep = Report('C13', tier, seed, clear_replays=False)
     rep.assumptions = ev2.get('assumptions', []) + [
         'data-type programs: statements over three names (copy construction, aliasing, binary / unary arithmetic with meshes and '
